@@ -371,11 +371,18 @@ class Loader:
             """slice.starts_with(constant bytes) / slice == constant bytes on a slice of the file: a free boolean per (slice, needle),
             recorded with the slice description and the needle so that the rules can judge WHAT is compared"""
             def f(ip_, st, fr, t, args):
-                sd = slice_desc(val(st, args[0]))
+                sv_ = val(st, args[0])
+                sd = slice_desc(sv_)
                 nv = val(st, args[1])
-                if sd is None or not (isinstance(nv, Agg) and nv.fields and all(isinstance(x, Int) and bv.to_int(x.bits) is not None for x in nv.fields)):
+                nd = slice_desc(nv)
+                if isinstance(nv, Agg) and nv.fields and all(isinstance(x, Int) and bv.to_int(x.bits) is not None for x in nv.fields):
+                    needle = bytes(bv.to_int(x.bits) for x in nv.fields)
+                elif nd is not None and isinstance(nd[0], tuple) and nd[0][:1] == ("bytes-of",) and isinstance(nd[0][1], str) and nd[1] is None:
+                    needle = nd[0][1].encode("utf-8")       # "text".as_bytes()
+                else:
                     return None
-                needle = bytes(bv.to_int(x.bits) for x in nv.fields)
+                if sd is None:
+                    sd = ("value", repr(sv_)[:80])        # some byte slice the loader does not describe further (e.g. a field of a parsed record)
                 var = bv.seq_bv("bytes_%s_%d" % (kind, st.count("bt")), 1)[0]
                 st.add_eff(("bytes-test", kind, sd, needle, var))
                 return Int((var,))
